@@ -23,9 +23,9 @@
 #![allow(unused_imports, dead_code, static_mut_refs)]
 use super::*;
 use crate::parse_dsym::DSymSpec;
-use crate::verif_support::{assume, reach_end, vin};
+use crate::verif_support::{assume, reach_end, vin, vpeek};
 
-const NSHAPE: usize = 20;
+const NSHAPE: usize = 22;
 const HUGE: usize = 1 << 62;
 const TOP: usize = 1 << 63;
 /// [op list lengths x4 (0 = list absent), degree list lengths x3, size, dim] -- all concrete; the
@@ -51,6 +51,8 @@ const SHAPES: [[usize; 9]; NSHAPE] = [
     [1, 1, 0, 0, 1, 0, 0, 3, 1],          // 17: header: more chambers than the lists can define
     [1, 1, 1, 1, 1, 1, 1, 1, 3],          // 18: size 1 dim 3
     [3, 1, 0, 0, 1, 0, 0, 2, 1],          // 19: more numbers than chambers
+    [1, 1, 0, 0, 1, 0, 0, 1, 3],          // 20: header dimension larger than the lists given
+    [1, 1, 1, 0, 1, 1, 0, 1, 1],          // 21: header dimension smaller than the lists given
 ];
 
 // odd bit pattern: see the note on constant merging in support.rs
@@ -129,12 +131,41 @@ fn run_from_str(shape: usize) -> Result<PartialDSym, String> {
     PartialDSym::from_str(&text)
 }
 
+/// position, in draw order, of entry `e` of op list `i` / degree list `i` (see make_spec)
+fn op_entry(shape: usize, i: usize, e: usize) -> usize {
+    let sh = SHAPES[shape];
+    let mut k = 2;
+    let mut l = 0;
+    while l < i {
+        k += sh[l];
+        l += 1;
+    }
+    vpeek(k + e) as usize
+}
+
+fn m_entry(shape: usize, i: usize, e: usize) -> usize {
+    let sh = SHAPES[shape];
+    let mut k = 2 + sh[0] + sh[1] + sh[2] + sh[3];
+    let mut l = 0;
+    while l < i {
+        k += sh[4 + l];
+        l += 1;
+    }
+    vpeek(k + e) as usize
+}
+
 fn parse_body<const SHAPE: usize, const SMAX: usize, const DMAX: usize>(reach: bool) {
     // any panic inside from_str (assert!, overflow, index, unwrap) is a CBMC property failure
     let res = run_from_str(SHAPE);
     if let Ok(ds) = res {
         let (n, dim) = (ds.size(), ds.dim());
         assert!(1 <= n && 1 <= dim, "C01.ok.size_dim_positive");
+        // the symbol is the one the text describes: header and list counts agree
+        let sh = SHAPES[SHAPE];
+        let n_ops = (sh[0] > 0) as usize + (sh[1] > 0) as usize + (sh[2] > 0) as usize + (sh[3] > 0) as usize;
+        let n_ms = (sh[4] > 0) as usize + (sh[5] > 0) as usize + (sh[6] > 0) as usize;
+        assert!(n == sh[7] && dim == sh[8], "C01.ok.header_respected");
+        assert!(n_ops == dim + 1 && n_ms == dim, "C01.ok.list_counts_match_dimension");
         if n <= SMAX && dim <= DMAX {
             let i: usize = vin();
             let d: usize = vin();
@@ -166,6 +197,16 @@ fn parse_body<const SHAPE: usize, const SMAX: usize, const DMAX: usize>(reach: b
                 assert!(ds.r(i, i + 1, d) == Some(len), "C01.ok.r_is_orbit_length");
                 let m = ds.m(i, i + 1, d);
                 assert!(m.is_some() && m.unwrap() % len == 0, "C01.ok.degree_multiple_of_orbit_length");
+                // the degree is the number written in the text: entry 0 of degree list i belongs to
+                // the orbit of chamber 1 (checked when it is non-zero: a zero leaves the orbit open)
+                let m0 = m_entry(SHAPE, i, 0);
+                if d == 1 && m0 != 0 {
+                    assert!(m == Some(m0), "C01.ok.degree_is_the_number_in_the_text");
+                }
+            }
+            // the image of chamber 1 is the first number of each op list
+            if d == 1 {
+                assert!(e == op_entry(SHAPE, i, 0), "C01.ok.image_is_the_number_in_the_text");
             }
         }
         std::mem::forget(ds);
@@ -207,6 +248,8 @@ macro_rules! proofs {
 // @harness c01_hdr_size3_short_lists tier=quick unwind=6 block=128 mem=16 timeout=1500
 // @harness c01_hdr_size3_short_lists_reach tier=quick unwind=6 block=128 mem=16 timeout=1500 twin
 // @harness c01_s2d1_o3_1_m1 tier=quick unwind=6 block=128 mem=24 timeout=1800
+// @harness c01_hdr_dim_too_large tier=quick unwind=6 block=128 mem=8 timeout=900
+// @harness c01_hdr_dim_too_small tier=quick unwind=6 block=128 mem=8 timeout=900
 proofs! {
     c01_s1d1_o1_1_m1 => parse_body::<0, 1, 1>(false);
     c01_s1d1_o1_1_m1_reach => parse_body::<0, 1, 1>(true);
@@ -231,4 +274,6 @@ proofs! {
     c01_hdr_size3_short_lists => parse_body::<17, 3, 1>(false);
     c01_hdr_size3_short_lists_reach => parse_body::<17, 3, 1>(true);
     c01_s2d1_o3_1_m1 => parse_body::<19, 2, 1>(false);
+    c01_hdr_dim_too_large => parse_body::<20, 1, 3>(false);
+    c01_hdr_dim_too_small => parse_body::<21, 1, 2>(false);
 }
